@@ -47,15 +47,28 @@ type Stanza struct {
 	Room string `json:"room"` // r1 r2 rx (never joined); "-" for oth
 	Nick string `json:"nick"` // me ot; "-" when not applicable
 	Call string `json:"call"` // er: the request it answers; else "-"
-	N    int    `json:"n"`    // inv: number of invitations in the message
+	N    int    `json:"n"`    // inv: number of <invite/> in the muc#user payload
+	// inv: the child elements of the message in document order: "b" a body, "u" the muc#user
+	// payload (N invitations, a status code when N = 0), "c" a jabber:x:conference element
+	// (a direct invitation, also added by rooms for legacy clients), "t" a thread element.
+	// Empty for the other stanza types.
+	Lay []string `json:"lay"`
+	Pw  bool     `json:"pw"` // inv: the invitation carries the room's password
 }
+
+const invPassword = "s3cret"
 
 // Step is one environment step.
 type Step struct {
-	Op   string  `json:"op"`   // join rejoin leave cancel send
+	Op   string  `json:"op"`   // join rejoin leave cancel send rest
 	Room string  `json:"room"` // calls
 	Call string  `json:"call"` // cancel: the call to cancel
 	St   *Stanza `json:"st,omitempty"`
+	// send: 0 = the peer delivers the stanza in one piece; otherwise only its first piece is
+	// delivered now and the remainder by the next "rest" step (or before the next send / at the
+	// end of the script): 1 = the piece ends with the stanza's start tag, 2 = in the middle of the
+	// stanza, 3 = just before the stanza's end tag.
+	Cut int `json:"cut,omitempty"`
 }
 
 type Scenario struct {
@@ -111,15 +124,42 @@ func stanzaBytes(s *Stanza, seq int) string {
 	case "er":
 		return fmt.Sprintf("<presence from='%s' to='me@example.net' id='%s' type='error'><x xmlns='http://jabber.org/protocol/muc'/><error type='cancel'><%s xmlns='urn:ietf:params:xml:ns:xmpp-stanzas'/></error></presence>", from, s.Call, conds[s.Call])
 	case "inv":
-		b := "<x xmlns='http://jabber.org/protocol/muc#user'>"
-		if s.N == 0 {
-			b += "<status code='104'/>"
+		b := ""
+		mediated := false
+		for _, k := range s.Lay {
+			switch k {
+			case "b":
+				b += "<body>you have been invited</body>"
+			case "t":
+				b += "<thread>th1</thread>"
+			case "u":
+				mediated = true
+				b += "<x xmlns='http://jabber.org/protocol/muc#user'>"
+				if s.N == 0 {
+					b += "<status code='104'/>"
+				}
+				for i := 0; i < s.N; i++ {
+					b += fmt.Sprintf("<invite from='ot%d@example.net/x'><reason>come %d</reason></invite>", i, i)
+				}
+				if s.Pw {
+					b += "<password>" + invPassword + "</password>"
+				}
+				b += "</x>"
+			case "c":
+				pw := ""
+				if s.Pw {
+					pw = " password='" + invPassword + "'"
+				}
+				b += fmt.Sprintf("<x xmlns='jabber:x:conference' jid='%s@%s'%s reason='come 9'/>", s.Room, service, pw)
+			default:
+				panic("layout element " + k)
+			}
 		}
-		for i := 0; i < s.N; i++ {
-			b += fmt.Sprintf("<invite from='ot%d@example.net/x'><reason>come %d</reason></invite>", i, i)
+		if !mediated {
+			// a direct invitation: not from the room itself but from one of its occupants
+			from += "/ot"
 		}
-		b += "</x>"
-		return fmt.Sprintf("<message from='%s@%s' to='me@example.net' id='s%d' type='normal'>%s</message>", s.Room, service, seq, b)
+		return fmt.Sprintf("<message from='%s' to='me@example.net' id='s%d' type='normal'>%s</message>", from, seq, b)
 	case "oth":
 		if s.N == 1 {
 			return fmt.Sprintf("<presence from='friend@example.net/x' to='me@example.net' id='s%d'><show>away</show></presence>", seq)
@@ -127,6 +167,37 @@ func stanzaBytes(s *Stanza, seq int) string {
 		return fmt.Sprintf("<message from='friend@example.net/x' to='me@example.net' id='s%d' type='chat'><body>hi</body></message>", seq)
 	}
 	panic("stanza type " + s.Ty)
+}
+
+// inviteEv projects an invitation handed to one of the application's callbacks (kind med:
+// Client.HandleInvite, dir: the function registered with muc.HandleInvite) back to the script
+// vocabulary: which payload it claims to be decoded from, which <invite/> (the index in its
+// reason), whether the password arrived, and - direct invitations - the room.
+func inviteEv(kind string, inv muc.Invitation) vt.Ev {
+	e := vt.Ev{"ev": "invite_cb", "kind": kind, "ns": "other", "k": -1, "pw": "bad", "room": "-"}
+	switch inv.XMLName.Space {
+	case muc.NSUser:
+		e["ns"] = "user"
+	case muc.NSConf:
+		e["ns"] = "conf"
+	}
+	var k int
+	if n, err := fmt.Sscanf(inv.Reason, "come %d", &k); err == nil && n == 1 && inv.Reason == fmt.Sprintf("come %d", k) {
+		e["k"] = k
+	}
+	switch inv.Password {
+	case "":
+		e["pw"] = "none"
+	case invPassword:
+		e["pw"] = "ok"
+	}
+	if kind == "dir" {
+		e["room"] = "?"
+		if inv.JID.Domainpart() == service && inv.JID.Resourcepart() == "" {
+			e["room"] = inv.JID.Localpart()
+		}
+	}
+	return e
 }
 
 // classify projects the start element a handler saw back to the script vocabulary.
@@ -195,6 +266,7 @@ type runner struct {
 	quietAt  int
 	ending   bool // the end phase has begun: no more script steps
 	spawn    func(name string, f func())
+	rest     string // undelivered remainder of the stanza the peer is in the middle of sending
 	nlogged  int // number of events when the last observation was taken
 	lastObs  map[string]string
 }
@@ -269,7 +341,13 @@ func (r *runner) startCall(st Step) {
 // envEnabled reports whether the next script step can be taken now; blocked reports that
 // it can never be taken unless a pending call returns (the script is then cut short).
 func (r *runner) envEnabled() (ok bool, waits bool) {
-	if r.next >= len(r.sc.Steps) || r.ending {
+	if r.ending {
+		return false, false
+	}
+	if r.implicitRest() {
+		return true, false
+	}
+	if r.next >= len(r.sc.Steps) {
 		return false, false
 	}
 	st := r.sc.Steps[r.next]
@@ -287,10 +365,51 @@ func (r *runner) envEnabled() (ok bool, waits bool) {
 	return true, false
 }
 
+// implicitRest: a stanza is partly delivered and the script has no "rest" step before its next
+// send (or its end): a peer's byte stream is sequential, the remainder comes first.
+func (r *runner) implicitRest() bool {
+	if r.rest == "" {
+		return false
+	}
+	return r.next >= len(r.sc.Steps) || r.sc.Steps[r.next].Op == "send"
+}
+
+func (r *runner) feedRest() {
+	rest := r.rest
+	r.rest = ""
+	r.lg.Add(vt.Ev{"ev": "rest"})
+	r.conn.FeedString(rest)
+}
+
+// cutAt returns the length of the first piece of stanza b for a cut of the given kind.
+func cutAt(b string, kind int) int {
+	first := strings.IndexByte(b, '>') + 1
+	last := strings.LastIndex(b, "</")
+	switch kind {
+	case 1:
+		return first
+	case 2:
+		return len(b) / 2
+	case 3:
+		if last > first {
+			return last
+		}
+	}
+	return len(b)
+}
+
 func (r *runner) doEnv() {
+	if r.implicitRest() {
+		r.feedRest()
+		return
+	}
 	st := r.sc.Steps[r.next]
 	r.next++
 	switch st.Op {
+	case "rest":
+		if r.rest != "" {
+			r.feedRest()
+		}
 	case "join", "rejoin", "leave":
 		r.startCall(st)
 	case "cancel":
@@ -302,8 +421,16 @@ func (r *runner) doEnv() {
 		r.cancels[st.Call]()
 	case "send":
 		r.nsent++
-		r.lg.Add(vt.Ev{"ev": "send", "st": st.St})
-		r.conn.FeedString(stanzaBytes(st.St, r.nsent))
+		b := stanzaBytes(st.St, r.nsent)
+		n := len(b)
+		if st.Cut != 0 {
+			n = cutAt(b, st.Cut)
+		}
+		// the event marks the moment the room begins to send: what a call does from here on
+		// may be caused by this stanza; "part" until the remainder has been delivered
+		r.lg.Add(vt.Ev{"ev": "send", "st": st.St, "part": n < len(b)})
+		r.rest = b[n:]
+		r.conn.FeedString(b[:n])
 	}
 }
 
@@ -368,13 +495,15 @@ func runSchedule(sc Scenario, choices []int) result {
 	sched := r.sched
 	r.client = &muc.Client{
 		HandleInvite: func(inv muc.Invitation) {
-			lg.Add(vt.Ev{"ev": "invite_cb", "reason": inv.Reason})
+			lg.Add(inviteEv("med", inv))
 		},
 		HandleUserPresence: func(p stanza.Presence, it muc.Item) {
 			lg.Add(vt.Ev{"ev": "userpres", "room": p.From.Localpart(), "nick": p.From.Resourcepart()})
 		},
 	}
-	m := mux.New(stanza.NSClient, muc.HandleClient(r.client))
+	m := mux.New(stanza.NSClient, muc.HandleClient(r.client), muc.HandleInvite(func(inv muc.Invitation) {
+		lg.Add(inviteEv("dir", inv))
+	}))
 	explore := sc.Mode == "explore"
 	xmpp.VerifHook = func(point, id string) {
 		if point != "serve.resume" || (explore && !sched.Mine()) {
@@ -648,6 +777,15 @@ func main() {
 		var s Scenario
 		if err := json.Unmarshal(rd.Bytes(), &s); err != nil {
 			panic(err)
+		}
+		for i := range s.Steps {
+			// never a JSON null in a trace; an invitation without layout is the plain one
+			if st := s.Steps[i].St; st != nil && st.Lay == nil {
+				st.Lay = []string{}
+				if st.Ty == "inv" {
+					st.Lay = []string{"u"}
+				}
+			}
 		}
 		scs = append(scs, s)
 	}
